@@ -35,7 +35,10 @@ fn bits_digest(xs: &[f64]) -> u64 {
     h
 }
 
-const CLASSES: [&str; 8] = [
+const CLASSES: [&str; 11] = [
+    "spd-sparse",
+    "posdiag-skew",
+    "near-symmetric",
     "dense",
     "integer",
     "spd",
@@ -283,6 +286,97 @@ fn gen_diag_dom(rng: &mut Rng, n: usize, positive_diag: bool) -> Vec<f64> {
     a
 }
 
+/// Symmetric positive definite with exact zeros inside the envelope (fill-in occurs in its factor):
+/// arrowhead, shifted 2-D grid Laplacian, or a banded matrix with random holes; strictly diagonally
+/// dominant with positive diagonal, hence SPD and well conditioned.
+fn gen_spd_sparse(rng: &mut Rng, n: usize) -> (Vec<f64>, String) {
+    let mut a = vec![0.0; n * n];
+    let kind = rng.usize(0, 2);
+    let how;
+    match kind {
+        0 => {
+            // arrowhead: dense first row/column (or last), otherwise diagonal
+            let hub = if rng.bool() { 0 } else { n - 1 };
+            for i in 0..n {
+                if i != hub {
+                    let v = rng.range(-1.0, 1.0);
+                    a[i * n + hub] = v;
+                    a[hub * n + i] = v;
+                }
+            }
+            how = format!("arrowhead (hub {})", hub);
+        }
+        1 => {
+            // 5-point Laplacian pattern on a w x h grid (n = w*h, last row of the grid may be short)
+            let w = ((n as f64).sqrt().ceil() as usize).max(1);
+            for i in 0..n {
+                for &j in &[i + 1, i + w] {
+                    if j < n && !(j == i + 1 && j % w == 0) {
+                        let v = -rng.range(0.5, 1.0);
+                        a[i * n + j] = v;
+                        a[j * n + i] = v;
+                    }
+                }
+            }
+            how = format!("grid-Laplacian pattern, width {}", w);
+        }
+        _ => {
+            let bw = rng.usize(1, n.max(2) - 1).min(6);
+            for i in 0..n {
+                for j in i + 1..(i + 1 + bw).min(n) {
+                    if rng.chance(0.6) {
+                        let v = rng.range(-1.0, 1.0);
+                        a[i * n + j] = v;
+                        a[j * n + i] = v;
+                    }
+                }
+            }
+            how = format!("band {} with random holes", bw);
+        }
+    }
+    for i in 0..n {
+        let off: f64 = (0..n).filter(|&j| j != i).map(|j| a[i * n + j].abs()).sum();
+        a[i * n + i] = off + rng.range(0.1, 1.0);
+    }
+    (a, format!("sparse SPD with exact zeros: {}", how))
+}
+
+/// Positive diagonal plus a skew-symmetric off-diagonal part: |a_ij| = |a_ji| for every pair with
+/// at least one sign flip, so the matrix is NOT symmetric although magnitudes match.
+fn gen_posdiag_skew(rng: &mut Rng, n: usize) -> (Vec<f64>, String) {
+    let mut a = vec![0.0; n * n];
+    for i in 0..n {
+        for j in i + 1..n {
+            let v = rng.range(-1.0, 1.0);
+            // mostly skew pairs, some symmetric pairs
+            let flip = j == i + 1 || rng.chance(0.7);
+            a[i * n + j] = v;
+            a[j * n + i] = if flip { -v } else { v };
+        }
+    }
+    for i in 0..n {
+        let off: f64 = (0..n).filter(|&j| j != i).map(|j| a[i * n + j].abs()).sum();
+        a[i * n + i] = 0.3 * off + rng.range(0.5, 1.5);
+    }
+    (a, "positive diagonal + (mostly) skew-symmetric off-diagonal part".to_string())
+}
+
+/// A symmetric positive definite matrix with a few pairs made visibly asymmetric (relative 1e-3..1).
+fn gen_near_symmetric(rng: &mut Rng, n: usize) -> (Vec<f64>, String) {
+    let (mut a, _) = gen_spd(rng, n);
+    let pairs = rng.usize(1, 3);
+    for _ in 0..pairs {
+        if n < 2 {
+            break;
+        }
+        let i = rng.usize(0, n - 2);
+        let j = rng.usize(i + 1, n - 1);
+        let f = 1.0 + rng.log_range(1e-3, 1.0) * if rng.bool() { 1.0 } else { -1.0 };
+        a[j * n + i] = a[i * n + j] * f + if a[i * n + j] == 0.0 { 1e-3 } else { 0.0 };
+    }
+    (a, "SPD with 1..3 off-diagonal pairs perturbed by a relative 1e-3..1".to_string())
+}
+
 fn gen_spd(rng: &mut Rng, n: usize) -> (Vec<f64>, String) {
     let g: Vec<f64> = (0..n * n).map(|_| rng.range(-1.0, 1.0)).collect();
     let mut a = vec![0.0; n * n];
@@ -407,6 +501,9 @@ fn generate(rng: &mut Rng, class: &'static str, n: usize) -> Option<(Sys, f64)> 
                 (ai, "integer entries in -9..9, B = A·X* with integer X* (exact)".to_string())
             }
             "spd" => gen_spd(rng, n),
+            "spd-sparse" => gen_spd_sparse(rng, n),
+            "posdiag-skew" => gen_posdiag_skew(rng, n),
+            "near-symmetric" => gen_near_symmetric(rng, n),
             "sym-indef-posdiag" => (gen_sym_indef(rng, n), "symmetric uniform(-1,1), diagonal in (0.1,1), one 2x2 principal minor negative".to_string()),
             "diag-dominant" => (gen_diag_dom(rng, n, false), "strictly row diagonally dominant, random diagonal signs".to_string()),
             "tri-perm-scaled" => gen_tri_perm_scaled(rng, n),
@@ -723,7 +820,7 @@ fn one_system(rep: &mut Report, s: &Sys, kappa: f64) {
 }
 
 pub fn run(cfg: &Cfg, rep: &mut Report) {
-    rep.rule = "case i: class = CLASSES[i mod 8], order n = 1 + (i div 8) mod Nmax (every class meets every order), 1..6 right-hand-side columns at random; each system goes through all six entry points. non-trivial = order >= 2 and A not diagonal; distinct by hash of (class, n, bits of A)".into();
+    rep.rule = "case i: class = CLASSES[i mod 11], order n = 1 + (i div 11) mod Nmax (every class meets every order), 1..6 right-hand-side columns at random; each system goes through all six entry points. non-trivial = order >= 2 and A not diagonal; distinct by hash of (class, n, bits of A)".into();
     rep.assume("A is finite, of order 1..32, nonsingular with cond_inf below 1e10 (1e14 for the graded / triangular classes) as measured by a double-double inverse; singular and non-finite inputs are outside the quantifier");
     rep.assume(&format!("backward-error bound C·n·eps with C = {} and eps = 2^-52, per column: |A x_j - b_j|_inf <= C n eps (|A|_inf |x_j|_inf + |b_j|_inf); forward comparisons use 2·C·n·eps·cond_inf", C));
     rep.assume("sym-indef-posdiag needs order >= 2 (order 1 is replaced by 2); tiny-nonsym-posdiag = every |a_ij - a_ji| <= 2^-52 without exact symmetry, positive diagonal (order >= 2)");
